@@ -24,8 +24,9 @@ packet — fact `wpInitValidates`; the decoder theorems hold for either value of
   its own journal (`pkg/model/iterator.go: LogEventIterator.Get`, `pkg/tmindex/cindex.go` rebuild), i.e. to bytes produced by
   `LogEvent.Marshal` in `partition.iwrapper` — no request path hands client bytes to it. `record_decode_total_partial` and
   `cex_record_varint` describe it: a remark (an on-disk corruption concern of C07), not a finding of C13;
-* LQL nesting: commit 8131efe added a guard, but its own byte scan disagrees with the lexer about `{…}` tags tokens — open finding
-  **F25b** (`cex_guard_hole`); `C13_full` holds once the guard counts on tokens (`C13_holds_with_token_guard`).
+* LQL nesting: the guard of commit 8131efe counts on the lexer's tokens since 6345cd4 (facts `lqlGuardKind = 2`, `lqlMaxNesting`):
+  `answers_every_request`, and `C13_full` is a theorem (`C13_holds`); `cex_guard_hole` remains as the statement about the
+  byte-scan branch (repaired finding F25b) and the unguarded branch (F25). No open finding.
 -/
 namespace Logrange.Props.C13
 open Go Logrange Logrange.Wire Logrange.Outcome
@@ -321,11 +322,10 @@ theorem eval_total (env : Where.Env) (e : Option Where.Expr) (flt : Where.Pred) 
 
 /-! ## recursion depth (findings F25, F25b) -/
 
-/-- the regenerated facts: the parser entry points of pkg/lql have a nesting guard with the limit 1000 (commit 8131efe);
-its kind is 1 (own byte scan) or 2 (counting on the lexer's tokens) -/
+/-- the regenerated facts: the parser entry points of pkg/lql have a nesting guard with the limit 1000 (commit 8131efe) that
+counts on the tokens of the parser's own lexer (kind 2, commit 6345cd4) -/
 theorem nesting_guard_in_place :
-    Generated.C13.lqlNestingGuard = true ∧ Generated.C13.lqlMaxNesting = 1000 ∧
-    (Generated.C13.lqlGuardKind = 1 ∨ Generated.C13.lqlGuardKind = 2) := by decide
+    Generated.C13.lqlNestingGuard = true ∧ Generated.C13.lqlMaxNesting = 1000 ∧ Generated.C13.lqlGuardKind = 2 := by decide
 
 /-- **With a guard that counts on the parser's own tokens, every text is answered**: if the stack holds `lqlMaxNesting` frames,
 no text exhausts it — whatever it contains (string literals, `{…}` tags, lexer errors), because guard and parser see the same
@@ -340,7 +340,7 @@ theorem answers_every_request_guarded (hk : Generated.C13.lqlGuardKind = 2) (bud
 def holeText : Bytes := [123, 97, 61, 39, 125, 40, 40, 40, 40, 97, 61, 49, 41, 41, 41, 41]
 
 set_option maxRecDepth 100000 in
-/-- **Counterexample (open finding F25b)**, on a small instance of the guards (limit 3, stack of 3 frames): the byte scan of
+/-- **The byte-scan branch (the code between commits 8131efe and 6345cd4, repaired finding F25b)**, on a small instance of the guards (limit 3, stack of 3 frames): the byte scan of
 commit 8131efe takes the `'` inside the tags token `{a='}` for the start of a string literal, skips the rest of the text and lets
 it pass, although its four nested parentheses exceed the limit — the parser then exhausts the stack; a guard that counts on
 the tokens refuses the same text with an error; and without any guard four parentheses exhaust three frames (F25). Evaluated
@@ -406,7 +406,7 @@ def C13_full : Prop :=
 
 /-- **Where C13 stands**: every clause but the last is proved above, and the last holds as soon as the nesting guard counts on
 the parser's own tokens (`lqlGuardKind = 2`, `proposed-fixes/F25b.diff`). With the byte-scan guard of commit 8131efe
-(`lqlGuardKind = 1`, the current tree) it does not: `cex_guard_hole`, open finding F25b. -/
+(`lqlGuardKind = 1`) it did not: `cex_guard_hole`, repaired finding F25b. -/
 theorem C13_holds_with_token_guard (hk : Generated.C13.lqlGuardKind = 2) : C13_full := by
   refine ⟨?_, fun s => (pos_total s).2, fun s => ⟨(escapeJson_terminates s).2, (escapeJson_terminates s).1⟩, ?_,
     fun lower fstr => (format_total lower fstr).1, ⟨Generated.C13.lqlMaxNesting, fun s =>
@@ -415,5 +415,18 @@ theorem C13_holds_with_token_guard (hk : Generated.C13.lqlGuardKind = 2) : C13_f
     exact ⟨(decode_total kv buf hb).2.2.1, (wpDrain_terminates kv default [] 0).2.2 buf, (decode_total kv buf hb).2.2.2.1⟩
   · intro split trim unq s f ht hs
     exact fromKV_WF split trim unq ht s f hs
+
+/-- **Every LQL text is answered** on the tree as it is now: with a stack of 1000 frames (or more) no text exhausts it — the
+positive statement that replaces the counterexamples of F25 and F25b. -/
+theorem answers_every_request (budget : Nat) (hb : 1000 ≤ budget) (s : Bytes) : (Nesting.parseNow budget s).isPanic = false :=
+  answers_every_request_guarded nesting_guard_in_place.2.2 budget (by rw [nesting_guard_in_place.2.1]; exact hb) s
+
+set_option maxRecDepth 100000 in
+/-- regression for F25b on the current guard kind with a small limit: the hole text is refused, three levels are parsed -/
+example : Nesting.parseG Generated.C13.lqlGuardKind 3 3 holeText = .err ∧
+    Nesting.parseG Generated.C13.lqlGuardKind 3 3 [40, 40, 40, 97, 61, 49, 41, 41, 41] = .ok 3 := by decide
+
+/-- **C13 holds at full strength** on the tree as it is now (no open finding). -/
+theorem C13_holds : C13_full := C13_holds_with_token_guard nesting_guard_in_place.2.2
 
 end Logrange.Props.C13
